@@ -17,7 +17,7 @@ CLAIMED = {
   "As C01. In free-running mode a reader's consumption counts from the invocation of its unmap (sound, marginally weaker)."),
  "C03": ("exploration", "DESIGN.md §4 C03",
   "deterministic simulation: seeded schedules with a preemption point inside cond_wait before enqueueing, spurious wake-ups and stalls; deadlock detection with a wait-for graph and step-budget liveness",
-  "Seeded search over schedules of writer, readers and a refuse-writes toggler; a hang is detected at the instant every thread is blocked (or as a step budget overrun) and judged against the reference model: violation only if a refusal has returned or every reader has drained.",
+  "Seeded search over schedules of writer, readers and a refuse-writes toggler; a hang is detected at the instant every thread is blocked (or as a step budget overrun) and judged against the reference model: violation only if a refusal has returned or every reader has drained. In addition, at every quiescent instant (nothing runnable, nobody but the writer inside a channel call, no refusal requested) a writer waiting for a request that the ring geometry says fits is a violation.",
   "Trusts the kernel's model of pthread_cond_wait (atomic release-and-enqueue, broadcast wakes all current waiters, spurious wake-ups allowed). Liveness is bounded: 400000 scheduling steps."),
 
  "C11": ("fault_enumeration", "DESIGN.md §4 C11",
@@ -25,9 +25,9 @@ CLAIMED = {
   "Seeded search over call histories on camera and storage devices with every status/state code the driver can answer attached to the call that receives it; the mock driver judges the legality of what it is asked (stop without start, frame/append outside running, close count) and the HAL-reported state is compared with what the driver's responses imply. Single-threaded: the faults are the driver's responses.",
   "Driver function pointers are non-NULL; the harness itself never uses a device after close returned. The real device manager and loader are used to reach the mock (dl seam)."),
  "C13": ("exploration", "DESIGN.md §4 C13",
-  "seeded init/set/copy/destroy histories on three live objects against a plain value model, with an allocator seam tracking every block of the module and ASan",
-  "Seeded search over call histories with arbitrary strings (NULL, empty, long, unterminated) and 0..4 dimensions; after every call all fields are compared with the model, no heap block may be reachable from two objects, every live block must be reachable, strings must be terminated, and at the end nothing may be live. No schedule/clock is involved (stated in DESIGN §5): the simulator contributes the allocator seam, history machinery, shrinking and replay.",
-  "Allocation failure is not injected. Dimension names are NUL-terminated as set_dimension documents. init is applied to fresh storage only."),
+  "seeded init/set/copy/destroy histories on three live objects against a plain value model, with an allocator seam tracking every block of the module (and, in a separate fault profile, refusing single allocations inside calls) and ASan",
+  "Seeded search over call histories with arbitrary strings (NULL, empty, long, unterminated) and 0..4 dimensions; after every call all fields are compared with the model, no heap block may be reachable from two objects, every live block must be reachable, strings must be terminated, and at the end nothing may be live. A second profile refuses the k-th allocation inside a call; afterwards strings must still be valid owned blocks, every field old or new, nothing leaked or released twice. No schedule/clock is involved (stated in DESIGN §5): the simulator contributes the allocator seam, history machinery, shrinking and replay.",
+  "After a refused allocation the call's return value and which of old/new each field holds are not judged. Dimension names are NUL-terminated as set_dimension documents. init is applied to fresh storage only."),
  "C04": ("exploration", "DESIGN.md §4 C04",
   "deterministic simulation of the whole runtime (real acquire.c, source/filter/sink, channel, HAL, loader, platform.c) with a mock camera/storage driver: seeded schedules, stalls and rings of 2-40 frames; storage history compared frame for frame with what the camera delivered",
   "Seeded search over configurations (1-2 streams, shapes with every residue mod 8, all sample types, frame counts, write delays, camera pacing, storage and client speeds, ring capacities) and thread schedules; after acquire_stop the packets the recording storage received are parsed and must equal the camera's delivered frames: ids 0..N-1, hardware ids and timestamps, shape, keyed-hash pixel bytes.",
@@ -59,11 +59,11 @@ CLAIMED = {
  "C14": ("exploration", "DESIGN.md §4 C14",
   "seeded set/start/append/stop histories on the real raw writer through the real HAL and the real write-all loop of platform.c, over a simulated file layer that returns short and zero-length writes and holds multi-GiB files sparsely (a `huge` profile grows one file past 4 GiB); file bytes compared with the concatenation of the appended packets",
   "Seeded search over histories (1-2 devices, 1-4 acquisitions each to a fresh path, every URI spelling, packet groupings, frame sizes) and over OS write behaviours (random short writes of every length, spaced zero-length writes); after each stop the file at the prefix-stripped path must equal the bytes appended in that acquisition.",
-  "Every acquisition uses a fresh path (files are created without truncation). Failing writes belong to C16."),
+  "Every acquisition uses a fresh path (files are created without truncation). Profile transient sweeps a failing write over every position: an acquisition in which every call reported success is judged like a fault-free one; after a reported failure only the acknowledged bytes are claimed (the file must begin with them)."),
  "C15": ("exploration", "DESIGN.md §4 C15",
   "seeded histories on the real tiff and tiff-json writers over the simulated file layer (incl. a `huge` profile whose file grows past 4 GiB, held sparsely); produced bytes parsed by an independent BigTIFF reader and JSON parser written from the specifications",
   "Seeded search over shapes, all sample types, frame counts, packet groupings, metadata, pixel scales, URI spellings, both device kinds and repeated start/stop cycles; oracle = exactly the stated clauses (header, chain length and zero link, offsets inside the file, no overlapping structures, width/height/bits/sample format per directory, strip bytes, description JSON with ids and timestamps, metadata on frame 0 or in metadata.json).",
-  "Tag order, optional tags and resolution values are not judged. tiff-json is always given metadata (it rejects an empty one at set, which is input validation)."),
+  "Tag order, optional tags and resolution values are not judged. Profile transient sweeps a failing write over every position: after a reported append failure caused by a passing fault the file must be a valid BigTIFF holding the acknowledged frames (frames of the failed packet may follow); lasting faults are not judged there. tiff-json is always given metadata (it rejects an empty one at set, which is input validation)."),
  "C16": ("fault_enumeration", "DESIGN.md §4 C16",
   "fault enumeration on the simulated file layer: a fault-free twin run of each generated life-cycle history counts the create/write/lock/close calls, then the history is re-executed once per call ordinal with the fault at that ordinal (EINTR, EAGAIN, three zero-length writes, persistent EIO/ENOSPC, one-off EIO, open EACCES/ENOENT/EMFILE, flock failure, close EIO); the file layer tracks descriptor ownership",
   "For every generated history (storage kind x shape: open-close, open-set-close, start/stop cycles, operations after a failure, close while running, a second start while running, set while running, a second device taking over released descriptor numbers) every ordinal of the chosen fault family's call is swept. Oracles: no crash, no unbounded recursion (stack overflow is classified), no hang; after a write failure the device is not Running when the failing append returns; a failed create is reported by start; only descriptors the device opened are written or closed, each closed once, none left open after close, 0-2 never closed.",
@@ -75,7 +75,7 @@ CLAIMED = {
  "C17": ("exploration", "DESIGN.md §4 C17",
   "seeded set/start/get_frame/stop histories on the three real simulated cameras, whose real streamer thread runs on the simulation kernel, under ASan with exact-size caller buffers and a guard allocator behind the camera's own malloc family (every block between inaccessible guards); both bin2 variants (avx2, and plain in a build without -mavx2); reported shape, strides and read-back values compared with a reference model",
   "Seeded search over camera kind, binning 1/2/4/8 (and rejected values), sample types, shapes incl. the clamping boundaries 8192/binning, offsets, exposures and re-configuration/restart histories, under seeded schedules of the streamer thread; any ASan report in render, binning, copy-out or reallocation is a violation.",
-  "set is issued only while stopped. Pixel values are not judged (the property is about memory safety and shape)."),
+  "set is issued only while stopped. Profile oom refuses a buffer allocation inside some sets; what such a set returns or leaves in effect is not judged, memory safety afterwards is. Pixel values are not judged (the property is about memory safety and shape)."),
  "C18": ("exploration", "DESIGN.md §4 C18",
   "deterministic simulation: getter, trigger and stopper threads against the real streamer thread under seeded schedules, stalls and spurious wake-ups, across restarts",
   "Seeded search over schedules and over the timing of frame, trigger and stop calls. Oracles: strictly increasing hardware ids within a run, the count restarts (bounded by elapsed virtual time over half an exposure), with trigger mode no frame before the first trigger of that run and never more frames than triggers invoked, stop returns and releases a pending frame call within a step budget.",
